@@ -134,7 +134,18 @@ func (m *Machine) Enforce(op string) {
 	}
 }
 
+func isLimitErr(err error) bool {
+	if ce, ok := err.(cashu.Error); ok {
+		return ce.Code == cashu.AmountLimitExceeded || ce.Code == cashu.MintingDisabledErrCode
+	}
+	return false
+}
+
 func (m *Machine) honestFail(what string, err error) {
+	if isLimitErr(err) && (m.W.Cfg.Limits.MaxBalance > 0 || m.W.Cfg.Limits.MintingSettings.MaxAmount > 0 || m.W.Cfg.Limits.MeltingSettings.MaxAmount > 0) {
+		// refusals by configured limits are judged by the C16 expectations in world
+		return
+	}
 	m.W.Flag("HONEST", "honest_"+what+"_rejected", "%s failed: %v", what, err)
 }
 
@@ -174,6 +185,16 @@ func (m *Machine) exec(t *rapid.T, op string) bool {
 		return m.opRestart(t)
 	case "replay":
 		return m.opReplay(t)
+	case "restore":
+		return m.opRestore(t)
+	case "checkstate_adv":
+		return m.opCheckStateAdv(t)
+	case "mintquote_boundary":
+		return m.opMintQuoteBoundary(t)
+	case "meltquote_boundary":
+		return m.opMeltQuoteBoundary(t)
+	case "lockedmint":
+		return m.opLockedMint(t)
 	}
 	return false
 }
@@ -791,4 +812,306 @@ func (m *Machine) opReplay(t *rapid.T) bool {
 		return true
 	}
 	return true
+}
+
+// ---------------------------------------------------------------- C15 queries
+
+const hexdigits = "0123456789abcdef"
+
+func (m *Machine) randomPointHex(t *rapid.T, label string) string {
+	// a valid curve point that the mint has never seen: hash_to_curve of a fresh label
+	_, y := world.Y("never-seen-" + m.W.NewSecret())
+	return y
+}
+
+func (m *Machine) opRestore(t *rapid.T) bool {
+	w := m.W
+	n := rapid.IntRange(1, 14).Draw(t, "rs_n")
+	var msgs cashu.BlindedMessages
+	var want []world.SignedRec
+	kinds := map[string]int{}
+	for i := 0; i < n; i++ {
+		kind := rapid.SampledFrom([]string{"signed", "signed", "signed_wrong_fields", "unsigned", "repeat", "malformed"}).Draw(t, "rs_kind")
+		if (kind == "signed" || kind == "signed_wrong_fields" || kind == "repeat") && len(w.M.SignedOrder) == 0 {
+			kind = "unsigned"
+		}
+		switch kind {
+		case "signed", "signed_wrong_fields":
+			b := w.M.SignedOrder[rapid.IntRange(0, len(w.M.SignedOrder)-1).Draw(t, "rs_idx")]
+			r := w.M.Signed[b]
+			bm := cashu.BlindedMessage{Amount: r.Amount, B_: b, Id: r.Keyset}
+			if kind == "signed_wrong_fields" {
+				bm.Amount = r.Amount*2 + 1
+				bm.Id = "00ffffffffffffff"
+			}
+			msgs = append(msgs, bm)
+			want = append(want, r)
+		case "repeat":
+			if len(msgs) == 0 {
+				continue
+			}
+			prev := msgs[rapid.IntRange(0, len(msgs)-1).Draw(t, "rs_rep")]
+			msgs = append(msgs, prev)
+			if r, ok := w.M.Signed[prev.B_]; ok {
+				want = append(want, r)
+			}
+		case "unsigned":
+			msgs = append(msgs, cashu.BlindedMessage{Amount: 1, B_: m.randomPointHex(t, "rs_pt"), Id: w.ActiveID})
+		case "malformed":
+			bad := rapid.SampledFrom([]string{"", "zz", "02", "02abc", "0x02", strings.Repeat("f", 66), "not hex at all"}).Draw(t, "rs_bad")
+			msgs = append(msgs, cashu.BlindedMessage{Amount: 1, B_: bad, Id: w.ActiveID})
+		}
+		kinds[kind]++
+	}
+	if len(msgs) == 0 {
+		return false
+	}
+	outs, sigs, err := w.Restore(msgs)
+	if err != nil {
+		m.logf("restore %d outputs: err=%v", len(msgs), err)
+		m.honestFail("restore", err)
+		return true
+	}
+	if len(outs) != len(sigs) {
+		w.Flag("C15", "restore_outputs_signatures_length_differ", "%d outputs %d signatures", len(outs), len(sigs))
+	}
+	if len(sigs) != len(want) {
+		w.Flag("C15", "restore_wrong_count", "asked %d (%v) expected %d signed, got %d", len(msgs), kinds, len(want), len(sigs))
+	} else {
+		for i, r := range want {
+			sg := sigs[i]
+			e, s := "", ""
+			if sg.DLEQ != nil {
+				e, s = sg.DLEQ.E, sg.DLEQ.S
+			}
+			if i < len(outs) && outs[i].B_ != r.B_ {
+				w.Flag("C15", "restore_wrong_order", "position %d: output %s want %s", i, short(outs[i].B_), short(r.B_))
+				break
+			}
+			if sg.Amount != r.Amount || sg.Id != r.Keyset || sg.C_ != r.C_ || e != r.E || s != r.S {
+				w.Flag("C15", "restore_signature_differs", "position %d: got (%d,%s,%s,%s,%s) originally (%d,%s,%s,%s,%s)", i, sg.Amount, sg.Id, short(sg.C_), short(e), short(s), r.Amount, r.Keyset, short(r.C_), short(r.E), short(r.S))
+				break
+			}
+		}
+	}
+	if kinds["signed"]+kinds["signed_wrong_fields"] > 0 && kinds["unsigned"]+kinds["malformed"] > 0 {
+		m.Count["restore_mixed"]++
+	}
+	m.logf("restore %d outputs %v: %d signatures", len(msgs), kinds, len(sigs))
+	return true
+}
+
+func (m *Machine) opCheckStateAdv(t *rapid.T) bool {
+	w := m.W
+	n := rapid.IntRange(1, 40).Draw(t, "csa_n")
+	var ys []string
+	kinds := map[string]int{}
+	for i := 0; i < n; i++ {
+		kind := rapid.SampledFrom([]string{"known", "known", "known", "unknown_point", "repeat", "malformed"}).Draw(t, "csa_kind")
+		if kind == "known" && len(w.M.Order) == 0 {
+			kind = "unknown_point"
+		}
+		switch kind {
+		case "known":
+			ys = append(ys, w.M.Proofs[w.M.Order[rapid.IntRange(0, len(w.M.Order)-1).Draw(t, "csa_idx")]].Y)
+		case "unknown_point":
+			ys = append(ys, m.randomPointHex(t, "csa_pt"))
+		case "repeat":
+			if len(ys) == 0 {
+				continue
+			}
+			ys = append(ys, ys[rapid.IntRange(0, len(ys)-1).Draw(t, "csa_rep")])
+		case "malformed":
+			ys = append(ys, rapid.SampledFrom([]string{"", "zz", "02", "04" + strings.Repeat("a", 128), "0x02aa", strings.Repeat("f", 66), "' OR 1=1 --"}).Draw(t, "csa_bad"))
+		}
+		kinds[kind]++
+	}
+	if len(ys) == 0 {
+		return false
+	}
+	got, err := w.CheckState(ys)
+	if err != nil {
+		m.logf("checkstate(adv) %d Ys: err=%v", len(ys), err)
+		m.honestFail("checkstate", err)
+		return true
+	}
+	want := w.ExpectedStates(ys)
+	states := map[string]bool{}
+	if len(got) != len(want) {
+		w.Flag("C15", "checkstate_length", "asked %d got %d", len(want), len(got))
+	} else {
+		for i := range want {
+			states[want[i].State.String()] = true
+			if got[i].Y != want[i].Y {
+				w.Flag("C15", "checkstate_wrong_order", "position %d: Y %s want %s", i, short(got[i].Y), short(want[i].Y))
+				break
+			}
+			if got[i].State != want[i].State {
+				w.Flag("C15", "checkstate_wrong_state|want="+want[i].State.String(), "position %d Y %s: mint %s, model %s", i, short(ys[i]), got[i].State, want[i].State)
+				break
+			}
+			if got[i].Witness != want[i].Witness {
+				w.Flag("C15", "checkstate_wrong_witness", "position %d: witness %q want %q", i, got[i].Witness, want[i].Witness)
+				break
+			}
+		}
+	}
+	if len(states) >= 2 {
+		m.Count["checkstate_mixed_states"]++
+	}
+	m.logf("checkstate(adv) %d Ys %v, %d distinct states: ok", len(ys), kinds, len(states))
+	return true
+}
+
+// ---------------------------------------------------------------- C16 boundary requests
+
+func (m *Machine) balance() uint64 { return m.W.M.IssuedTotal() - m.W.M.RedeemedTotal() }
+
+func (m *Machine) opMintQuoteBoundary(t *rapid.T) bool {
+	w := m.W
+	lim := w.Cfg.Limits
+	cands := []uint64{1<<63 - 1, 1 << 63, ^uint64(0), ^uint64(0) - 1}
+	if lim.MintingSettings.MaxAmount > 0 {
+		x := lim.MintingSettings.MaxAmount
+		cands = append(cands, x, x+1, x-1, x, x+1)
+	}
+	if lim.MaxBalance > 0 {
+		b := m.balance()
+		if lim.MaxBalance >= b {
+			d := lim.MaxBalance - b
+			cands = append(cands, d, d+1, d, d+1)
+			if d > 1 {
+				cands = append(cands, d-1)
+			}
+		}
+		// wrap-around candidates: balance + amount overflows uint64
+		cands = append(cands, ^uint64(0)-b+1, ^uint64(0)-b, ^uint64(0)-b+2)
+	}
+	amount := rapid.SampledFrom(cands).Draw(t, "mqb_amount")
+	if amount == 0 {
+		return false
+	}
+	q, err := w.RequestMintQuote(amount, nil)
+	m.Count["boundary_request"]++
+	m.logf("boundary mint quote %d (balance %d, limits %+v): err=%v", amount, m.balance(), lim, err)
+	if err == nil && amount <= 1<<20 {
+		// use it so that the balance moves towards the limit
+		w.PayInvoice(q)
+		if _, e := w.MintTokens(q, w.MakeOutputs(world.Split(amount), w.ActiveID), ""); e != nil {
+			m.honestFail("mint", e)
+		}
+	}
+	return true
+}
+
+func (m *Machine) opMeltQuoteBoundary(t *rapid.T) bool {
+	w := m.W
+	x := w.Cfg.Limits.MeltingSettings.MaxAmount
+	if x == 0 {
+		return false
+	}
+	sat := rapid.SampledFrom([]uint64{x, x + 1, x - 1, x, x + 1}).Draw(t, "meltb_amount")
+	if sat == 0 {
+		return false
+	}
+	msat := sat * 1000
+	if rapid.Bool().Draw(t, "meltb_submsat") {
+		msat -= rapid.Uint64Range(1, 999).Draw(t, "meltb_sub")
+	}
+	inv := w.Net.ExternalInvoice(msat)
+	_, err := w.RequestMeltQuote(inv.Request, 0)
+	m.Count["boundary_request"]++
+	m.logf("boundary melt quote %d msat (melt max %d): err=%v", msat, x, err)
+	return true
+}
+
+// ---------------------------------------------------------------- C03 NUT-20 tampering
+
+func (m *Machine) opLockedMint(t *rapid.T) bool {
+	w := m.W
+	q := m.pickMintQuote(t, func(q *world.MMintQuote) bool { return q.LockPriv != nil })
+	if q == nil {
+		return false
+	}
+	outs := w.MakeOutputs(world.Split(q.Amount), w.ActiveID)
+	msgs := world.Msgs(outs)
+	tamper := rapid.SampledFrom([]string{"honest", "honest_lib", "none", "non_hex", "wrong_length", "other_key", "reordered", "added", "removed", "replaced", "other_quote", "outputs_changed_after"}).Draw(t, "nut20_tamper")
+	sig := ""
+	signOver := func(id string, ms cashu.BlindedMessages) string { return world.SignNut20(q.LockPriv, id, ms) }
+	switch tamper {
+	case "honest":
+		sig = signOver(q.ID, msgs)
+	case "honest_lib":
+		sig = world.SignNut20Lib(q.LockPriv, q.ID, msgs)
+	case "none":
+	case "non_hex":
+		sig = strings.Repeat("zz", 64)
+	case "wrong_length":
+		sig = signOver(q.ID, msgs)[:126]
+	case "other_key":
+		sig = world.SignNut20(new(big.Int).Add(q.LockPriv, big.NewInt(1)), q.ID, msgs)
+	case "reordered":
+		if len(msgs) < 2 {
+			return false
+		}
+		r := append(cashu.BlindedMessages{}, msgs...)
+		r[0], r[len(r)-1] = r[len(r)-1], r[0]
+		sig = signOver(q.ID, r)
+	case "added":
+		extra := w.MakeOutputs([]uint64{1}, w.ActiveID)
+		sig = signOver(q.ID, append(append(cashu.BlindedMessages{}, msgs...), extra[0].Msg))
+	case "removed":
+		if len(msgs) < 2 {
+			return false
+		}
+		sig = signOver(q.ID, msgs[:len(msgs)-1])
+	case "replaced":
+		other := w.MakeOutputs([]uint64{outs[0].Amount}, w.ActiveID)
+		r := append(cashu.BlindedMessages{}, msgs...)
+		r[0] = other[0].Msg
+		sig = signOver(q.ID, r)
+	case "other_quote":
+		sig = signOver(q.ID+"00", msgs)
+	case "outputs_changed_after":
+		sig = signOver(q.ID, msgs)
+		repl := w.MakeOutputs([]uint64{outs[0].Amount}, w.ActiveID)
+		outs[0] = repl[0]
+	}
+	payments, issuances := q.Payments(), q.Issuances
+	_, err := w.MintTokens(q, outs, sig)
+	m.logf("locked mint quote %d (payments %d, issuances %d) nut20=%s: err=%v", q.Idx, payments, issuances, tamper, err)
+	if payments > issuances {
+		m.Count["nut20_on_paid_"+tamper]++
+		if strings.HasPrefix(tamper, "honest") {
+			if err != nil {
+				m.honestFail("locked_mint_"+tamper, err)
+			}
+		} else {
+			m.Count["nut20_tampered_on_paid"]++
+		}
+	}
+	return true
+}
+
+// Weights returns a copy of the default weights with overrides applied.
+func Weights(over map[string]int) map[string]int {
+	w := map[string]int{}
+	for k, v := range DefaultWeights {
+		w[k] = v
+	}
+	for k, v := range over {
+		w[k] = v
+	}
+	return w
+}
+
+// Run executes one generated history on a fresh world and returns the machine (world already closed).
+func Run(t *rapid.T, cfg world.Config, opt Options) *Machine {
+	w := world.New(t, cfg)
+	defer w.Close()
+	m := New(t, w, opt)
+	rec.Eval()
+	t.Repeat(map[string]func(*rapid.T){"step": m.Step})
+	rec.ClassN("steps", w.M.Steps)
+	return m
 }
